@@ -201,6 +201,14 @@ def phase_of(traceback_text):
     return "other"
 
 
+def named_in_diagnostic(text, name):
+    """the file is named on a line that says something went wrong (a progress line such as `Preprocessing <file>` is no diagnostic)"""
+    for line in text.splitlines():
+        if name in line and re.search(r"(?i)error|warn|skip|fail|invalid|could not|cannot|unable", line):
+            return True
+    return False
+
+
 def observe_child(arg):
     root, bad_names = arg
     resource.setrlimit(resource.RLIMIT_CPU, (CPU_LIMIT, CPU_LIMIT + 5))
@@ -218,7 +226,7 @@ def observe_child(arg):
 
         err = f"{type(e).__name__}: {e}\n" + traceback.format_exc()[-1200:]
     text = "\n".join(cap.warnings) + "\n" + cap.stdout
-    named = {b: (b in text) for b in bad_names}
+    named = {b: named_in_diagnostic(text, b) for b in bad_names}
     return {"table": table, "idents": ids, "error": err, "registered": registered, "named": named, "diag_tail": text[-1500:]}
 
 
@@ -334,7 +342,8 @@ def cli_case(arg):
             write_tree(os.path.join(proj, "src"), valid)
             write_tree(os.path.join(proj, "src"), COMPANIONS)
             write_tree(os.path.join(proj, "src"), extra)
-            site.write_project_file(proj, {"project": "Robust", "src_dir": "./src", "output_dir": "./doc", "preprocess": False, "search": True, "graph": False,
+            # (files with an upper-case extension go through the default preprocessor first)
+            site.write_project_file(proj, {"project": "Robust", "src_dir": "./src", "output_dir": "./doc", "preprocess": any(b[0].endswith(".F90") for b in bad), "search": True, "graph": False,
                                            "display": ["public", "private", "protected"], "proc_internals": True, "incl_src": True, "parallel": 0})
             r = site.run_cli(proj, timeout=600, env={"PYTHONHASHSEED": "0", "VF_CPU_LIMIT": str(CPU_LIMIT * 2), "PYTHONPATH": AUDIT_DIR + ":" + core.REPO})
             res[tag] = (r, tree_hash(os.path.join(proj, "doc")) if os.path.isdir(os.path.join(proj, "doc")) else {})
@@ -352,10 +361,11 @@ def cli_case(arg):
         if rv["rc"] != 0:
             return {"viol": [{"kf": {"kind": "run_aborted", "phase": phase_of(text), "layer": "cli"}, "w": {**w0, "classes": classes, "rc": rv["rc"], "tail": text[-1500:]}}], "outcome": "aborted"}
         viol = []
-        documented = [b for b in bad if os.path.join("sourcefile", os.path.basename(b[0]) + ".html") in tv and "/" not in b[0]] + [b for b in bad if "/" in b[0] and set(tv) - set(tb)]
+        tv_lower = {k.lower() for k in tv}  # (page names are lower-cased)
+        documented = [b for b in bad if os.path.join("sourcefile", os.path.basename(b[0]) + ".html").lower() in tv_lower and "/" not in b[0]] + [b for b in bad if "/" in b[0] and set(tv) - set(tb)]
         skipped = [b for b in bad if b not in documented]
         for b in skipped:
-            if b[0] not in text:
+            if not named_in_diagnostic(text, b[0]):
                 viol.append({"kf": {"kind": "skipped_file_not_named_in_diagnostic", "class": b[1], "layer": "cli"}, "w": {**w0, "file": b[0], "tail": text[-1200:]}})
         if not documented and tv != tb:
             diff = sorted(k for k in set(tb) | set(tv) if tb.get(k) != tv.get(k))
@@ -414,6 +424,10 @@ def main():
         for ci in rng.sample(range(len(cs)), min(ncli, len(cs))):
             nm = f"{rng.choice(prefixes)}_bad{ci}.f90" if rng.random() < 0.75 else f"zz_legacy/{rng.choice(vnames)}"
             cli_tasks.append((s, [(nm, cs[ci][0], cs[ci][1], cs[ci][2], cs[ci][3])]))
+        # default settings: files with an upper-case extension are preprocessed (pcpp) before they are read
+        bytes_classes = [ci for ci, c in enumerate(cs) if c[0] in ("undecodable_bytes", "utf16_file", "latin1_file", "nul_bytes")]
+        for ci in rng.sample(bytes_classes, min(3, len(bytes_classes))) + rng.sample(range(len(cs)), 2):
+            cli_tasks.append((s, [(f"{rng.choice(prefixes)}_badpp{ci}.F90", cs[ci][0], cs[ci][1], cs[ci][2], cs[ci][3])]))
     results = core.fork_map(variant, tasks, per_case_fork=False, case_timeout=500, total_timeout=3000)
     for t, (st, r) in zip(tasks, results):
         if st != "ok":
